@@ -94,6 +94,11 @@ Theorem C01_fuel_sufficient :
 Proof. exact run_fuel_sufficient. Qed.
 Print Assumptions C01_fuel_sufficient.
 
+(* the driver computes the bound with tail-recursive arithmetic (the extracted numbers are unary) *)
+Theorem C01_fuel_bound_as_computed : forall h final, fuel_bound_tr h final = fuel_bound h final.
+Proof. exact fuel_bound_tr_eq. Qed.
+Print Assumptions C01_fuel_bound_as_computed.
+
 (* the hypotheses are inhabited by non-trivial histories (reentrant cancel with a failing
    follow-up send on the connection under read; a getaddrinfo whose first query is released by a
    callback while it is being sent; a top-level cancel during which a callback's request closes
